@@ -47,6 +47,7 @@ type c16case struct {
 	MapRot  int   `json:"maprot"`
 	SelMode int   `json:"selmode"`
 	NDuty   int   `json:"nduty"`
+	Fine    bool  `json:"fine,omitempty"` // part F: ops 0..2 = Add(P|Q|R), 3 = the clock moves to the next instant of c16fineInstants
 }
 
 func c16opName(nd, op int) string {
@@ -238,12 +239,173 @@ func c16run(t *testing.T, cs c16case) (res c16result) {
 	return res
 }
 
+// ---- part F: instants off the grid ------------------------------------------------------------------------
+// The main part keeps deadlines and harness actions on a half-second grid. Here deadlines have sub-millisecond parts (as
+// slotDuration/12 has for slot durations that are not multiples of 12 ms), two of them fall into the same millisecond, two
+// are one nanosecond apart, and the clock visits exactly the instants at which a coarser representation of a deadline
+// (truncated or rounded to micro- or milliseconds) would differ from the deadline itself.
+var c16fineDuties = []struct {
+	name string
+	duty Duty
+	dl   time.Duration
+}{
+	{"P", Duty{Slot: 11, Type: DutyAttester}, 1_000_416_667},
+	{"Q", Duty{Slot: 12, Type: DutyAttester}, 1_000_716_667}, // same millisecond as P
+	{"R", Duty{Slot: 13, Type: DutyAttester}, 1_000_416_668}, // one nanosecond after P
+}
+
+func c16fineInstants() []time.Duration {
+	set := map[time.Duration]bool{}
+	for _, d := range c16fineDuties {
+		for _, x := range []time.Duration{d.dl.Truncate(time.Millisecond), d.dl.Truncate(time.Microsecond), d.dl - 1, d.dl, d.dl + 1,
+			d.dl.Truncate(time.Millisecond) + time.Millisecond, d.dl.Round(time.Microsecond)} {
+			set[x] = true
+		}
+	}
+	var out []time.Duration
+	for x := range set {
+		out = append(out, x)
+	}
+	sort.Slice(out, func(i, j int) bool { return out[i] < out[j] })
+	return out
+}
+
+func c16fineRun(t *testing.T, cs c16case) (res c16result) {
+	runtime.VerifSetMapRot(true, uint64(cs.MapRot))
+	defer runtime.VerifSetMapRot(false, 0)
+	runtime.VerifSetSelMode(uint32(cs.SelMode))
+	defer runtime.VerifSetSelMode(0)
+	instants := c16fineInstants()
+	synctest.Test(t, func(t *testing.T) {
+		ctx, cancel := context.WithCancel(context.Background())
+		fc := clockwork.NewFakeClock()
+		t0 := fc.Now()
+		dls := map[Duty]time.Duration{}
+		for _, d := range c16fineDuties {
+			dls[d.duty] = d.dl
+		}
+		dl := newDeadliner(ctx, "c16f", func(duty Duty) (time.Time, bool) { return t0.Add(dls[duty]), true }, fc)
+		done := make(chan struct{})
+		go func() {
+			defer close(done)
+			for {
+				select {
+				case <-ctx.Done():
+					return
+				case d := <-dl.C():
+					res.receipts = append(res.receipts, c16receipt{d, fc.Since(t0)})
+				}
+			}
+		}()
+		synctest.Wait()
+		next := 0
+		for _, op := range cs.Ops {
+			res.opTimes = append(res.opTimes, fc.Since(t0))
+			if op < 3 {
+				res.statuses = append(res.statuses, dl.Add(c16fineDuties[op].duty))
+			} else {
+				res.statuses = append(res.statuses, -1)
+				if next < len(instants) {
+					fc.Advance(instants[next] - fc.Since(t0))
+					next++
+				}
+			}
+			synctest.Wait()
+		}
+		for ; next < len(instants); next++ { // the remaining instants one by one, then far beyond
+			fc.Advance(instants[next] - fc.Since(t0))
+			synctest.Wait()
+		}
+		for i := 0; i < 3; i++ {
+			fc.Advance(5 * time.Second)
+			synctest.Wait()
+		}
+		cancel()
+		<-done
+		synctest.Wait()
+	})
+	bad := func(sig, f string, a ...any) {
+		res.sig = append(res.sig, sig)
+		res.viol = append(res.viol, fmt.Sprintf(f, a...))
+	}
+	owed := map[string]bool{}
+	for i, op := range cs.Ops {
+		if op >= 3 {
+			continue
+		}
+		d, now, st := c16fineDuties[op], res.opTimes[i], res.statuses[i]
+		switch {
+		case now > d.dl && st != DeadlineExpired:
+			bad("kind=add-status want=expired part=F", "Add(%s) at %s, after its deadline %s, returned %v", d.name, now, d.dl, st)
+		case now < d.dl && st != DeadlineScheduled:
+			bad("kind=add-status want=scheduled part=F", "Add(%s) at %s, before its deadline %s, returned %v", d.name, now, d.dl, st)
+		}
+		if st == DeadlineScheduled && now <= d.dl { // registered exactly at the deadline: either answer, and it binds
+			owed[d.name] = true
+		}
+	}
+	count := map[string]int{}
+	var lastDl time.Duration
+	for _, r := range res.receipts {
+		var name string
+		var ddl time.Duration
+		for _, x := range c16fineDuties {
+			if x.duty == r.duty {
+				name, ddl = x.name, x.dl
+			}
+		}
+		if name == "" {
+			bad("kind=unknown-duty-reported part=F", "duty %v reported but never added", r.duty)
+			continue
+		}
+		count[name]++
+		if !owed[name] {
+			bad("kind=late-add-reported part=F", "%s was not registered before its deadline but was reported", name)
+			continue
+		}
+		if r.at < ddl {
+			bad("kind=reported-early part=F", "%s reported at %s, %s before its deadline %s", name, r.at, ddl-r.at, ddl)
+		}
+		if ddl < lastDl {
+			bad("kind=reported-out-of-deadline-order part=F", "%s (deadline %s) reported after a duty with the later deadline %s", name, ddl, lastDl)
+		}
+		lastDl = max(lastDl, ddl)
+	}
+	for name := range owed {
+		switch {
+		case count[name] == 0:
+			bad("kind=never-reported part=F", "%s was registered before its deadline but never reported (15s after it)", name)
+		case count[name] > 1:
+			bad("kind=reported-twice part=F", "%s reported %d times", name, count[name])
+		}
+	}
+	return res
+}
+
 func c16str(cs c16case) string {
+	if cs.Fine {
+		var p []string
+		for _, op := range cs.Ops {
+			if op < 3 {
+				p = append(p, "add"+c16fineDuties[op].name)
+			} else {
+				p = append(p, "next")
+			}
+		}
+		return fmt.Sprintf("fine/rot%d/sel%d:%s", cs.MapRot, cs.SelMode, strings.Join(p, ","))
+	}
 	var p []string
 	for _, op := range cs.Ops {
 		p = append(p, c16opName(cs.NDuty, op))
 	}
 	return fmt.Sprintf("rot%d/sel%d:%s", cs.MapRot, cs.SelMode, strings.Join(p, ","))
+}
+
+func c16any(t *testing.T, cs c16case) c16result {
+	if cs.Fine {
+		return c16fineRun(t, cs)
+	}
+	return c16run(t, cs)
 }
 
 func TestVerifC16(t *testing.T) {
@@ -254,7 +416,7 @@ func TestVerifC16(t *testing.T) {
 			// confirm 3x
 			ok := true
 			for k := 0; k < 3; k++ {
-				r2 := c16run(t, cs)
+				r2 := c16any(t, cs)
 				f := false
 				for _, s := range r2.sig {
 					if s == sig {
@@ -275,7 +437,7 @@ func TestVerifC16(t *testing.T) {
 		if err := r.ReplayCase(&cs); err != nil {
 			t.Fatal(err)
 		}
-		res := c16run(t, cs)
+		res := c16any(t, cs)
 		fmt.Printf("replay %s: statuses=%v receipts=%v violations=%v\n", c16str(cs), res.statuses, res.receipts, res.viol)
 		r.Eval("replay")
 		report(cs, res)
@@ -284,6 +446,45 @@ func TestVerifC16(t *testing.T) {
 	// alphabets: (number of duties, max length)
 	mstates := map[string]struct{}{}
 	defer func() { r.States(len(mstates)) }()
+	// part F: every interleaving of Add(P), Add(Q), Add(R) (each at most once, every subset, every order) with the walk of the
+	// clock over the off-grid instants, under three map rotations and both select orders
+	{
+		nInst := len(c16fineInstants())
+		var recF func(ops []int, used int, steps int)
+		recF = func(ops []int, used int, steps int) {
+			if len(ops) == 2 && !r.Mine() {
+				return
+			}
+			if r.Expired() {
+				return
+			}
+			if used != 0 && (steps == nInst || len(ops) >= 2) {
+				for rot := 0; rot < 3; rot++ {
+					for _, sel := range []int{1, 2} {
+						cs := c16case{Ops: append([]int(nil), ops...), MapRot: rot, SelMode: sel, Fine: true}
+						res := c16fineRun(t, cs)
+						r.Eval(fmt.Sprintf("fine:adds=%03b/reports:%d", used, len(res.receipts)))
+						r.Steps(len(ops) + nInst)
+						r.Count("fine_reports_observed", len(res.receipts))
+						if len(res.sig) > 0 {
+							report(cs, res)
+						}
+					}
+				}
+			}
+			for op := 0; op < 4; op++ {
+				if op < 3 {
+					if used&(1<<op) != 0 {
+						continue
+					}
+					recF(append(ops[:len(ops):len(ops)], op), used|1<<op, steps)
+				} else if steps < nInst {
+					recF(append(ops[:len(ops):len(ops)], op), used, steps+1)
+				}
+			}
+		}
+		recF(nil, 0, 0)
+	}
 	type cfg struct{ nd, maxLen int }
 	cfgs := []cfg{{6, 5}, {8, 4}}
 	if enumx.Thorough() {
